@@ -247,6 +247,28 @@ def check(ctx):
                 del n0
     if enq < 2:
         raise AnalysisError("fewer than 2 ticket enqueue sites found")
+    # the flusher's ticket is taken by the thread that calls flush(), BEFORE the worker is started: the order of
+    # tickets is then the order of flush() calls.  A ticket taken by the worker itself (in run()) is taken whenever
+    # that thread happens to be scheduled, and a later flush / an index read can overtake an earlier flush.
+    fi = flat(ctx, hj.func("JsonHistoryFlusher.__init__"), depth=1, skip=("dump", "i_am_at_the_front"))
+    ficfg = CFG(fi)
+    fidefs = df.all_defs(fi)
+
+    def is_enq(n_):
+        if n_.kind != "stmt" or getattr(n_.ast, "_xv_call_marker", False):
+            return False
+        for c in calls_in(n_.ast):
+            if last_attr(c) == "append" and c.args and unparse(c.args[0]) == "self" and isinstance(c.func, ast.Attribute):
+                recv = unparse(df.resolve_copy(fidefs, c.func.value)) + " " + unparse(c.func.value)
+                if "queue" in recv:
+                    return True
+        return False
+
+    starts_ = [n_ for n_ in ficfg.nodes if n_.kind == "stmt" and any(call_name(c) == "self.start" for c in calls_in(n_.ast))]
+    if not starts_:
+        raise AnchorMissing(f"{HJ}:JsonHistoryFlusher.__init__: self.start()")
+    for s_ in starts_:
+        ctx.ob("R4", f"{HJ}:JsonHistoryFlusher.__init__", "the flusher is enqueued on the calling thread before its worker thread is started (ticket order = flush order)", ficfg.dominated(s_, is_enq), key="JsonHistoryFlusher.__init__|start-before-ticket", where=loc(s_.ast))
     for q in ("JsonHistoryFlusher.i_am_at_the_front", "JsonCommandField.i_am_at_the_front"):
         fn = hj.func(q)
         ok = any(isinstance(n, ast.Return) and isinstance(n.value, ast.Compare) and isinstance(n.value.ops[0], ast.Is) and unparse(n.value.left) == "self" and unparse(n.value.comparators[0]).endswith("[0]") for n in walk_local(fn))
